@@ -26,6 +26,12 @@ LookImageCasesQuick == {IC({}, 1)}
 ExtKinds == {"raw", "neg", "csill", "filterill", "illclean", "lead1", "mid1", "leadW"}
 ExtImageCases == {[init |-> {}, draws |-> d, ext |-> e, src |-> s] : d \in 1..2, e \in ExtKinds, s \in {"xobj", "inline"}}
 NoImageCases == {}
+\* LONG runs of occupied candidates: name.ext and name.0.ext .. name.k.ext all exist already
+Run(k) == {-1} \cup 0..k
+RunImageCases == {IC(Run(k), d) : k \in {0, 1, 9, 99, 100, 150}, d \in 1..2}
+\* one document that exports the same name once on each of 103 pages into an empty directory
+ManyImageCases == {IC({}, 103)}
+OneName == {[abs |-> FALSE, segs |-> <<"zz">>, look |-> "ascii"]}
 HalfImageCases == {IC(i, 2) : i \in SUBSET {-1, 0, 1}}
 ImageNames == NamesUpTo(MaxSegImage, BOOLEAN)
 ImageNamesRel == NamesUpTo(MaxSegImage, {FALSE})
